@@ -35,6 +35,11 @@ def verify_F(prop):
         dt = (time.time() - t0) / max(1, len(obl))
         for name, status, detail in obl:
             out.append(Verdict(name, 'F', status, detail, dt, f'{mod}.{qual}', 'frame'))
+    if prop in ('C18', 'C19'):
+        for name, status, detail in frame.check_reinit('bipartite_graph', 'HopcroftKarp', '__call__'):
+            v = Verdict(name, 'F', status, detail, 0.0, 'bipartite_graph.HopcroftKarp.__call__', 'frame')
+            v.confirm = ['HopcroftKarp']
+            out.append(v)
     return out
 
 
